@@ -4,6 +4,7 @@
 // This file contains comments only and is compiled only under the build tag "verif".
 package storage
 
+//@ owned btreeNode.offsets, btreeNode.leafCells, btreeNode.internalCells
 //@ spec const maxValue = 400
 //@ spec const maxLeaf = 9
 //@ spec const maxInternal = 290
@@ -79,7 +80,8 @@ package storage
 //@   ensures[err.iff] (result != nil) <==> len(value) > maxValue
 //@   ensures[err.value] result != nil ==> result == ErrRowTooLarge
 //@   ensures[err.frame] result != nil ==> n.offsets == old(n.offsets) && n.leafCells == old(n.leafCells) &&
-//@              (forall i int :: 0 <= i && i < cnt(n) ==> n.offsets[i] == old(n.offsets[i]))
+//@              (forall i int :: 0 <= i && i < cnt(n) ==> n.offsets[i] == old(n.offsets[i])) &&
+//@              (forall i int :: 0 <= i && i < len(n.leafCells) ==> n.leafCells[i] == old(n.leafCells[i]))
 //@   ensures[ok.count] result == nil ==> cnt(n) == old(cnt(n)) + 1 && len(n.leafCells) == old(len(n.leafCells)) + 1 && slotsOK(n)
 //@   ensures[ok.before] result == nil ==> forall i int :: 0 <= i && i < offset ==> lc(n,i) == old(lc(n,i))
 //@   ensures[ok.after] result == nil ==> forall i int :: offset < i && i < cnt(n) ==> lc(n,i) == old(lc(n,i-1))
@@ -188,7 +190,7 @@ package storage
 //@ spec func centry(e *list.Element) *cacheEntry { e.Value.(*cacheEntry) }
 //@ spec func lruAt(lru *LRUCache, i int) *list.Element { listAt(lru.list, i) }
 //@ spec func lruLen(lru *LRUCache) int { listLen(lru.list) }
-//@ spec pred lruInv(lru *LRUCache) {
+//@ spec opaque lruInv(lru *LRUCache) {
 //@   lru.list != nil && lru.cache != nil && list.listWF(lru.list) && len(lru.cache) == lruLen(lru) &&
 //@   (forall i int :: 0 <= i && i < lruLen(lru) ==>
 //@        typeof(lruAt(lru,i).Value) == typ(*cacheEntry) && centry(lruAt(lru,i)) != nil && centry(lruAt(lru,i)).val != nil &&
@@ -198,6 +200,7 @@ package storage
 //@ spec pred dirtyAt(lru *LRUCache, i int) { centry(lruAt(lru,i)).val.dirty }
 
 //@ func (lru *LRUCache) get(key any) (*btreeNode, bool)
+//@   reveal lruInv
 //@   props C15 C16
 //@   requires lruInv(lru)
 //@   modifies listAt(lru.list), listPos
@@ -211,6 +214,7 @@ package storage
 //@ spec pred allDirty(lru *LRUCache) { forall i int :: 0 <= i && i < lruLen(lru) ==> dirtyAt(lru, i) }
 
 //@ func (lru *LRUCache) set(key any, val *btreeNode) bool
+//@   reveal lruInv
 //@   props C15 C16
 //@   requires lruInv(lru) && val != nil && lru.maxNodes >= 0
 //@   modifies listLen(lru.list), listAt(lru.list), listPos, listOf, mapof(lru.cache), all(cacheEntry.val)
@@ -240,6 +244,7 @@ package storage
 //@   loop 1 decreases cur == nil ? 0 : listPos(cur) + 1
 
 //@ func NewLRU(maxNodes int) *LRUCache
+//@   reveal lruInv
 //@   props C15
 //@   requires maxNodes >= 0
 //@   modifies listLen, listAt, listPos, listOf
@@ -255,3 +260,191 @@ package storage
 //@   ensures[stored] result == nil ==> has(f.cache.cache, key) && centry(f.cache.cache[key]).val == val
 //@   ensures[neverdirty] forall k any :: old(has(f.cache.cache, k)) && old(centry(f.cache.cache[k]).val.dirty) ==> has(f.cache.cache, k)
 //@   ensures[capacity] old(lruLen(f.cache)) <= f.cache.maxNodes ==> lruLen(f.cache) <= f.cache.maxNodes
+
+// ---- file store: counters, allocation, cache (C01 C02 C11 C16) ----
+
+//@ spec pred cacheOK(f *fileStore) { f.cache != nil && lruInv(f.cache) && f.cache.maxNodes >= 0 }
+//@ spec pred cached(f *fileStore, n *btreeNode) { has(f.cache.cache, n.fileOffset) && centry(f.cache.cache[n.fileOffset]).val == n }
+
+//@ func (f *fileStore) getLastKey() uint32
+//@   props C01 C02
+//@   pure
+//@   ensures result == f.lastKey
+
+//@ func (f *fileStore) incrementLastKey() error
+//@   props C01 C02
+//@   modifies f.lastKey
+//@   ensures result == nil && f.lastKey == uint32(old(f.lastKey) + 1)
+
+//@ func (f *fileStore) nextLSN() uint64
+//@   props C02
+//@   pure
+//@   ensures result == f._nextLSN
+
+//@ func (f *fileStore) incrLSN()
+//@   props C02
+//@   modifies f._nextLSN
+//@   ensures f._nextLSN == uint64(old(f._nextLSN) + 1)
+
+//@ func (f *fileStore) setPageTableRoot(node *btreeNode) error
+//@   props C01
+//@   requires node != nil
+//@   modifies f.pageTableRoot
+//@   ensures result == nil && f.pageTableRoot == node.fileOffset
+
+//@ func (f *fileStore) append(node *btreeNode) error
+//@   props C01 C11 C16
+//@   requires cacheOK(f) && node != nil
+//@   modifies node.fileOffset, f.nextFreeOffset, listLen(f.cache.list), listAt(f.cache.list), listPos, listOf, mapof(f.cache.cache), all(cacheEntry.val)
+//@   ensures[offset] node.fileOffset == old(f.nextFreeOffset)
+//@   ensures[ok] result == nil ==> f.nextFreeOffset == uint64(old(f.nextFreeOffset) + 4096) && cached(f, node)
+//@   ensures[err] result != nil ==> f.nextFreeOffset == old(f.nextFreeOffset) && result == ErrLRUCacheFull
+//@   ensures[cache] cacheOK(f)
+
+//@ iface (s store) fetch(offset uint64) (*btreeNode, error)
+//@   delegates *fileStore
+//@ iface (s store) append(p *btreeNode) error
+//@   delegates *fileStore
+//@ iface (s store) update(p *btreeNode) error
+//@   delegates *fileStore
+//@ iface (s store) getLastKey() uint32
+//@   delegates *fileStore
+//@ iface (s store) nextLSN() uint64
+//@   delegates *fileStore
+//@ iface (s store) incrLSN()
+//@   delegates *fileStore
+//@ iface (s store) incrementLastKey() error
+//@   delegates *fileStore
+//@ iface (s store) setPageTableRoot(pg *btreeNode) error
+//@   delegates *fileStore
+//@ iface (s store) flushPages() error
+//@   delegates *fileStore
+
+// ---- node object invariant (re-established by every mutator, assumed for every page obtained from the store) ----
+
+//@ spec pred leafOK(n *btreeNode) { n.isLeaf && slotsOK(n) && sortedKeys(n) && identity(n) && sizesOK(n) &&
+//@        cnt(n) < maxLeaf && len(n.leafCells) < 65535 &&
+//@        (forall i int :: 0 <= i && i < cnt(n) ==> len(lc(n,i).valueBytes) <= maxValue) }
+//@ spec pred intOK(n *btreeNode) { !n.isLeaf && slotsOK(n) && sortedKeys(n) && identity(n) &&
+//@        cnt(n) < maxInternal && len(n.internalCells) < 65535 }
+//@ spec pred nodeOK(n *btreeNode) { n != nil && (n.isLeaf ? leafOK(n) : intOK(n)) }
+
+//@ func (f *fileStore) fetch(offset uint64) (*btreeNode, error)
+//@   props C01 C11 C12 C16
+//@   trusted
+//@   requires cacheOK(f)
+//@   modifies listLen(f.cache.list), listAt(f.cache.list), listPos, listOf, mapof(f.cache.cache), all(cacheEntry.val)
+//@   ensures cacheOK(f)
+//@   ensures err != nil ==> result0 == nil
+//@   ensures err == nil ==> nodeOK(result0) && result0.fileOffset == offset && cached(f, result0)
+
+//@ spec func fsOf(b *BTree) *fileStore { b.store.(*fileStore) }
+//@ spec pred btOK(b *BTree) { typeof(b.store) == typ(*fileStore) && fsOf(b) != nil && cacheOK(fsOf(b)) }
+
+//@ func (b *BTree) getRoot() (*btreeNode, error)
+//@   props C01 C11
+//@   requires btOK(b)
+//@   modifies listLen(fsOf(b).cache.list), listAt(fsOf(b).cache.list), listPos, listOf, mapof(fsOf(b).cache.cache), all(cacheEntry.val)
+//@   ensures btOK(b)
+//@   ensures err != nil ==> result0 == nil
+//@   ensures err == nil ==> nodeOK(result0) && result0.fileOffset == b.rootOffset
+
+//@ func (b *BTree) setRoot(node *btreeNode)
+//@   props C01 C11
+//@   requires node != nil
+//@   modifies b.rootOffset
+//@   ensures b.rootOffset == node.fileOffset
+
+// ---- B+ tree, one level (C01 C11 C02 C14) ----
+
+//@ spec pred keyAbsent(n *btreeNode, key uint32) { forall i int :: 0 <= i && i < cnt(n) ==> key(n,i) != key }
+//@ // A-ASC (ascending spine), leaf form: a key that is about to be added is greater than every key of the
+//@ // right-most leaf, which is compact and has no right sibling; its parent routes to it through rightOffset.
+//@ spec pred ascLeaf(parent *btreeNode, cur *btreeNode, key uint32) {
+//@     (forall i int :: 0 <= i && i < cnt(cur) ==> key(cur,i) < key) && compact(cur) && !cur.hasRSib &&
+//@     (parent != nil ==> compact(parent) && parent.rightOffset == cur.fileOffset &&
+//@         (cnt(cur) >= 1 ==> key(parent, cnt(parent)-1) <= key(cur,0))) }
+//@ spec pred leafCellIs(n *btreeNode, i int, k uint32, v []byte) { lc(n,i).key == k && lc(n,i).valueBytes == v && lc(n,i).valueSize == len(v) && !lc(n,i).deleted }
+
+//@ func (b *BTree) insertLeaf(parent *btreeNode, curNode *btreeNode, key uint32, nextLSN uint64, value []byte) error
+//@   props C01 C11 C02 C14
+//@   prune
+//@   requires btOK(b) && curNode != nil && leafOK(curNode)
+//@   requires parent != nil ==> intOK(parent) && parent != curNode && cnt(parent) >= 1
+//@   assume[A-ASC.leaf] keyAbsent(curNode, key) ==> ascLeaf(parent, curNode, key)
+//@   modifies curNode.offsets, curNode.leafCells, elems(curNode.offsets), elems(curNode.leafCells), curNode.dirty, curNode.lastLSN,
+//@            curNode.hasRSib, curNode.rSibFileOffset, parent.offsets, parent.internalCells, elems(parent.offsets), elems(parent.internalCells),
+//@            parent.rightOffset, parent.dirty, parent.lastLSN, b.rootOffset, fsOf(b).nextFreeOffset,
+//@            listLen(fsOf(b).cache.list), listAt(fsOf(b).cache.list), listPos, listOf, mapof(fsOf(b).cache.cache), all(cacheEntry.val)
+//@   ensures[bt] btOK(b)
+//@   ensures[dup; C01 C14] !old(keyAbsent(curNode, key)) ==> result != nil
+//@   ensures[toolarge; C08 C14] old(keyAbsent(curNode, key)) && len(value) > maxValue ==> result == ErrRowTooLarge
+//@   ensures[err.frame; C14] (!old(keyAbsent(curNode, key)) || len(value) > maxValue) ==>
+//@              curNode.offsets == old(curNode.offsets) && curNode.leafCells == old(curNode.leafCells) && curNode.dirty == old(curNode.dirty) &&
+//@              curNode.lastLSN == old(curNode.lastLSN) && b.rootOffset == old(b.rootOffset) && fsOf(b).nextFreeOffset == old(fsOf(b).nextFreeOffset) &&
+//@              (forall i int :: 0 <= i && i < cnt(curNode) ==> lc(curNode,i) == old(lc(curNode,i)))
+//@   ensures[nosplit; C01] result == nil && old(cnt(curNode)) + 1 < maxLeaf ==>
+//@              cnt(curNode) == old(cnt(curNode)) + 1 && leafCellIs(curNode, old(cnt(curNode)), key, value) &&
+//@              (forall i int :: 0 <= i && i < old(cnt(curNode)) ==> lc(curNode,i) == old(lc(curNode,i))) &&
+//@              b.rootOffset == old(b.rootOffset) && !curNode.hasRSib
+//@   ensures[nosplit.inv; C11] result == nil && old(cnt(curNode)) + 1 < maxLeaf ==> leafOK(curNode) && compact(curNode)
+//@   ensures[stamp; C02 C04] result == nil ==> curNode.dirty && curNode.lastLSN == nextLSN
+//@   ensures[split; C01 C11; witness np=newPg] result == nil && old(cnt(curNode)) + 1 == maxLeaf ==> exists np *btreeNode ::
+//@              fresh(np) && np.isLeaf && cnt(curNode) == 4 && cnt(np) == 5 && leafOK(curNode) && leafOK(np) && compact(np) &&
+//@              (forall i int :: 0 <= i && i < 4 ==> lc(curNode,i) == old(lc(curNode,i))) &&
+//@              (forall j int :: 0 <= j && j < 4 ==> lc(np,j).key == old(lc(curNode, 4 + j).key) && lc(np,j).valueBytes == old(lc(curNode, 4 + j).valueBytes) &&
+//@                   lc(np,j).valueSize == old(lc(curNode, 4 + j).valueSize) && lc(np,j).deleted == old(lc(curNode, 4 + j).deleted)) &&
+//@              leafCellIs(np, 4, key, value) &&
+//@              curNode.hasRSib && curNode.rSibFileOffset == np.fileOffset && np.hasLSib && np.lSibFileOffset == curNode.fileOffset && !np.hasRSib &&
+//@              np.dirty && np.lastLSN == nextLSN && np.fileOffset == old(fsOf(b).nextFreeOffset)
+//@   ensures[split.parent; C01 C11; witness np=newPg] result == nil && old(cnt(curNode)) + 1 == maxLeaf && parent != nil ==> exists np *btreeNode ::
+//@              fresh(np) && cnt(parent) == old(cnt(parent)) + 1 && ic(parent, old(cnt(parent))).key == lc(np,0).key &&
+//@              ic(parent, old(cnt(parent))).fileOffset == old(parent.rightOffset) && parent.rightOffset == np.fileOffset &&
+//@              (forall i int :: 0 <= i && i < old(cnt(parent)) ==> ic(parent,i) == old(ic(parent,i))) &&
+//@              parent.dirty && parent.lastLSN == nextLSN && b.rootOffset == old(b.rootOffset) && compact(parent)
+//@   ensures[split.root; C01 C11; witness np=newPg root=parent$] result == nil && old(cnt(curNode)) + 1 == maxLeaf && parent == nil ==>
+//@              exists np *btreeNode, root *btreeNode :: fresh(np) && fresh(root) && np != root && !root.isLeaf && cnt(root) == 1 &&
+//@              ic(root,0).key == lc(np,0).key && ic(root,0).fileOffset == curNode.fileOffset && root.rightOffset == np.fileOffset &&
+//@              b.rootOffset == root.fileOffset && root.dirty && root.lastLSN == nextLSN && compact(root) && intOK(root)
+
+// ---- field lists and rows (C05 C06 C18) ----
+
+//@ spec pred fieldsOK(fields Fields) { forall j int :: 0 <= j && j < len(fields) ==> fields[j] != nil }
+//@ spec pred colIs(fields Fields, j int, name string) { fields[j].Column == name }
+
+//@ func (fields Fields) LookupFieldIdx(fieldName string) (int, error)
+//@   props C05 C06 C18
+//@   pure
+//@   requires fieldsOK(fields)
+//@   ensures[found; C06] err == nil ==> 0 <= result0 && result0 < len(fields) && colIs(fields, result0, fieldName) &&
+//@              (forall j int :: 0 <= j && j < len(fields) && j != result0 ==> !colIs(fields, j, fieldName))
+//@   ensures[err.idx] err != nil ==> result0 == 0 - 1
+//@   ensures[notfound; C06] (forall j int :: 0 <= j && j < len(fields) ==> !colIs(fields, j, fieldName)) ==> errIs(err, ErrFieldNotFound)
+//@   ensures[ambiguous; C06] (exists i, j int :: 0 <= i && i < j && j < len(fields) && colIs(fields, i, fieldName) && colIs(fields, j, fieldName)) ==>
+//@              errIs(err, ErrFieldAmbiguous)
+//@   ensures[err.kind] err != nil ==> errIs(err, ErrFieldNotFound) || errIs(err, ErrFieldAmbiguous)
+//@   loop 1 invariant foundIdx >= 0 - 1 && foundIdx <= rangeindex
+//@   loop 1 invariant foundIdx == 0 - 1 ==> forall j int :: 0 <= j && j <= rangeindex ==> !colIs(fields, j, fieldName)
+//@   loop 1 invariant foundIdx >= 0 ==> colIs(fields, foundIdx, fieldName) &&
+//@              (forall j int :: 0 <= j && j <= rangeindex && j != foundIdx ==> !colIs(fields, j, fieldName))
+//@   loop 1 decreases len(fields) - rangeindex
+
+//@ func (fields Fields) LookupColIdxByID(tableID string, fieldName string) (int, error)
+//@   props C05 C06 C18
+//@   pure
+//@   requires fieldsOK(fields)
+//@   ensures[found; C06] err == nil ==> 0 <= result0 && result0 < len(fields) && colIs(fields, result0, fieldName) && fields[result0].TableID == tableID &&
+//@              (forall j int :: 0 <= j && j < result0 ==> !(colIs(fields, j, fieldName) && fields[j].TableID == tableID))
+//@   ensures[notfound; C06] err != nil ==> result0 == 0 - 1 && errIs(err, ErrFieldNotFound) &&
+//@              (forall j int :: 0 <= j && j < len(fields) ==> !(colIs(fields, j, fieldName) && fields[j].TableID == tableID))
+//@   loop 1 invariant forall j int :: 0 <= j && j <= rangeindex ==> !(colIs(fields, j, fieldName) && fields[j].TableID == tableID)
+//@   loop 1 decreases len(fields) - rangeindex
+
+//@ func (r *Row) Merge(row *Row) *Row
+//@   props C06 C18
+//@   requires row != nil
+//@   modifies nothing
+//@   ensures fresh(result) && len(result.Vals) == len(r.Vals) + len(row.Vals)
+//@   ensures forall i int :: 0 <= i && i < len(r.Vals) ==> result.Vals[i] == r.Vals[i]
+//@   ensures forall i int :: 0 <= i && i < len(row.Vals) ==> result.Vals[len(r.Vals) + i] == row.Vals[i]
+//@   ensures result.Vals == nil || fresh(result.Vals)
